@@ -3,6 +3,7 @@
 mod ast;
 mod codec;
 mod interp;
+mod climits;
 mod compile;
 mod frags;
 mod lift;
@@ -38,6 +39,7 @@ fn main() {
         "interp" => interp::run(&args[2..]),
         "compile" => compile::run(&args[2..]),
         "compile-one" => compile::run_one(&args[2..]),
+        "compile-limits" => climits::run(&args[2..]),
         "frags" => frags::run(&args[2..]),
         "tap" => tap::run(&args[2..]),
         "desc" => desc::run(&args[2..]),
